@@ -289,6 +289,30 @@ fn neighbour_of(kind: ReprKind, m: &WDg, how: &str, seed: u64) -> WDg {
         "order" => {
             let _ = n.v.insert(ids[ids.len() - 1].wrapping_add(1));
         }
+        "move" => {
+            // same size, same outdegrees: one arc of a row that has both an arc and a non-neighbour is moved to
+            // another head (in a near-complete digraph these are exactly the rows with a gap)
+            let rows: Vec<usize> = ids
+                .iter()
+                .copied()
+                .filter(|&u| {
+                    let d = m.a.range((u, 0)..=(u, usize::MAX)).count();
+                    d >= 1 && d + 1 < ids.len()
+                })
+                .collect();
+            if rows.is_empty() {
+                toggle_arc(&mut n, &mut rng);
+            } else {
+                let u = *rng.pick(&rows);
+                let heads: Vec<usize> = m.a.range((u, 0)..=(u, usize::MAX)).map(|(&(_, w), _)| w).collect();
+                let free: Vec<usize> = ids.iter().copied().filter(|&w| w != u && !m.a.contains_key(&(u, w))).collect();
+                // an inner head of the row as often as any (the extremes of a row are what cheap tests look at)
+                let from = if heads.len() > 2 && rng.chance(1, 2) { heads[rng.range(1, heads.len() - 2)] } else { *rng.pick(&heads) };
+                let to = *rng.pick(&free);
+                let w = n.a.remove(&(u, from)).unwrap_or(0);
+                let _ = n.a.insert((u, to), w);
+            }
+        }
         "rename" if kind == ReprKind::Map => {
             // the same digraph up to the id of ONE vertex (preferably one without in-arcs, renamed to a free
             // id inside the id range): same order, same rows rank by rank, another vertex set
@@ -328,6 +352,11 @@ impl Lane for C20 {
         if super::c01::start_order_hint(&start_a) > cap {
             start_a = Start::Empty { order: 12 };
         }
+        let near_complete = !kind.weighted() && rng.chance(1, 40);
+        if near_complete {
+            // dense rows: a complete digraph of order 13..=24 minus one to three arcs at structured rows
+            start_a = Start::Gen { gen: "complete".into(), a: rng.range(13, 24), b: 0 };
+        }
         let n = draw_small_order(rng, kind).max(2);
         let maxlen = match tier {
             Tier::Quick => 24,
@@ -341,12 +370,22 @@ impl Lane for C20 {
                 u != v && (!fixed || (u < 64 && v < 64)) && u < (1 << 20) && v < (1 << 20)
             }).collect()
         };
-        let steps_a = valid_only(draw_steps(rng, kind, n, len_a.max(1)), kind.fixed_order());
+        let mut steps_a = valid_only(draw_steps(rng, kind, n, len_a.max(1)), kind.fixed_order());
+        if near_complete {
+            let n = super::c01::start_order_hint(&start_a);
+            steps_a.clear();
+            for _ in 0..rng.range(1, 3) {
+                let r = rng.below(n);
+                let u = *rng.pick(&[0, n - 1, n / 2, r]);
+                let v = (u + 1 + rng.below(n - 1)) % n;
+                steps_a.push(Step::Remove { u, v });
+            }
+        }
         let starts = ["empty", "gen:complete", "gen:cycle", "gen:circuit", "gen:star", "gen:path", "gen:wheel", "gen:biclique", "gen:empty",
             "rand:tournament", "rand:erdos_renyi", "rand:recursive_tree", "model", "model", "derived:complement", "derived:converse", "derived:union"];
         let route_b = Route { start: (*rng.pick(&starts)).into(), seed: rng.next_u64(), detour: rng.range(0, maxlen) };
         let route_c = Route { start: (*rng.pick(&starts)).into(), seed: rng.next_u64(), detour: rng.range(0, 8) };
-        let neighbour = (*rng.pick(&["arc", "arc", "weight", "order", "rename"])).to_string();
+        let neighbour = (*rng.pick(&["arc", "arc", "weight", "order", "rename", "move"])).to_string();
         let (l1, l2) = (rng.range(1, 12), rng.range(1, 12));
         let after_clone_original = valid_only(draw_steps(rng, kind, n, l1), kind.fixed_order());
         let after_clone_copy = valid_only(draw_steps(rng, kind, n, l2), kind.fixed_order());
